@@ -58,7 +58,11 @@ def J(id, entry, props, enforce=None, replace=(), loops=False, unwind=None, unwi
          'unwind': unwind, 'unwind_reason': unwind_reason, 'props': props, 'defines': DEFS}
     j.update(kw); JOBS.append(j); return j
 TYPES_PRELUDE = ['vec_ans.h', 'core_types.h', 'ans_types.h']
-COSIM = False
+NATIVE_TYPES_PRE = '#define rans_precision_bits_t 12\n'
+COSIM = True
+NATIVE_SOURCES = []
+NATIVE_DEFS = ['-DRANS_P=12']
+NATIVE_SLICE_PRE = '#define rans_precision_bits_t RANS_P\nextern uint32_t ghost_rem, ghost_sym; extern int ghost_k;\n'
 
 J('ComputeRAnsPrecision.contract', 'h_enf_ComputeRAnsPrecision', ['C08', 'C05'], enforce='ComputeRAnsPrecisionFromUniqueSymbolsBitLength')
 J('precision_table', 'h_precision_table', ['C05', 'C08'])
